@@ -128,6 +128,9 @@ func ruleU1(c *Ctx, id string) {
 			dispatch = append(dispatch, topInstr(wScopes, sc, call))
 		}
 		for _, call := range P.CallsIn(sc.Fn, funcIs(V.CommitUnstable)) {
+			if c2, isC := call.(*ssa.Call); isC && c2.Call.StaticCallee() == nil && len(P.Callees(call)) > 1 {
+				continue // one of several commits chosen as a function value: followed below
+			}
 			nUnstable++
 			ok := notLevel(wScopes, sc, call.Block(), fileSync) && notLevel(wScopes, sc, call.Block(), dataSync)
 			R.Check(ok, id, "NFSPROC3_WRITE|CommitUnstable only when neither FILE_SYNC nor DATA_SYNC", P.Pos(call.Pos()), "the asynchronous commit is dominated by args.Stable != FILE_SYNC and args.Stable != DATA_SYNC", "both guards dominate", "a write requested with stable semantics is acknowledged after an asynchronous commit")
